@@ -1,14 +1,1022 @@
-//! C09 — not built yet.
-use crate::engine::{Ctx, Property};
+//! C09 — every font the library writes is a valid, self-consistent sfnt.
+//! Generators: subset / prince::subset (all cmap targets) on fixture fonts and on generated
+//! BasicFonts, whole_font with generated tag lists, variations::instance at generated user
+//! coordinates, and the tables delivered by the WOFF2 table provider. Oracle: the independent
+//! validator `refmodel::sfnt_validate`, plus self-load through allsorts' own readers.
+
+use crate::engine::util::{mix64, pick};
+use crate::engine::{fixtures, CaseResult, Ctx, Fail, Property, Rec};
+use crate::fontgen::basic::{glyf_simple, BasicFont, SimpleGlyph};
+use crate::fontgen::buf::Buf;
+use crate::refmodel::sfnt_validate::{validate_cff, validate_container, validate_tables, Opts, Tag};
+use allsorts::binary::read::ReadScope;
+use allsorts::cff::cff2::CFF2;
+use allsorts::cff::outline::CFF2Outlines;
+use allsorts::cff::CFF;
+use allsorts::font::Font;
+use allsorts::font_data::FontData;
+use allsorts::outline::{OutlineBuilder, OutlineSink};
+use allsorts::pathfinder_geometry::line_segment::LineSegment2F;
+use allsorts::pathfinder_geometry::vector::Vector2F;
+use allsorts::subset::prince::PrinceCmapTarget;
+use allsorts::tables::glyf::GlyfTable;
+use allsorts::tables::loca::LocaTable;
+use allsorts::tables::{Fixed, FontTableProvider, HeadTable, HheaTable, HmtxTable, MaxpTable};
+use allsorts::tag;
+use proptest::prelude::*;
+use std::collections::{BTreeMap, BTreeSet};
+use std::sync::OnceLock;
 
 pub struct C09;
+
+fn fail(sig: &str, msg: String) -> Fail {
+    Fail::new(format!("C09:{}", sig), msg)
+}
+
+// ------------------------------------------------------------------------------ sources
+
+#[derive(Clone, Copy, Debug, PartialEq)]
+pub enum Outline {
+    Glyf,
+    Cff,
+    Cff2,
+    None,
+}
+
+pub struct Source {
+    pub rel: String,
+    pub bytes: Vec<u8>,
+    pub num_glyphs: u16,
+    pub tags: Vec<u32>,
+    pub outline: Outline,
+    /// fvar axes (min, default, max) raw 16.16
+    pub axes: Vec<(i32, i32, i32)>,
+    /// validator codes the source itself raises (cross-table layer)
+    pub codes: BTreeSet<&'static str>,
+    pub container_codes: BTreeSet<&'static str>,
+    pub woff2: bool,
+}
+
+fn be16(d: &[u8], at: usize) -> Option<u16> {
+    d.get(at..at + 2).map(|b| u16::from_be_bytes([b[0], b[1]]))
+}
+fn be32(d: &[u8], at: usize) -> Option<u32> {
+    d.get(at..at + 4).map(|b| u32::from_be_bytes([b[0], b[1], b[2], b[3]]))
+}
+
+/// all tables of a provider, owned
+fn provider_tables<P: FontTableProvider>(p: &P) -> Option<BTreeMap<Tag, Vec<u8>>> {
+    let mut m = BTreeMap::new();
+    for t in p.table_tags()? {
+        if let Ok(Some(d)) = p.table_data(t) {
+            m.insert(t.to_be_bytes(), d.into_owned());
+        }
+    }
+    Some(m)
+}
+
+fn as_refs(m: &BTreeMap<Tag, Vec<u8>>) -> BTreeMap<Tag, &[u8]> {
+    m.iter().map(|(k, v)| (*k, &v[..])).collect()
+}
+
+fn load_source(rel: &str) -> Option<Source> {
+    let bytes = fixtures::read(rel)?;
+    let (tables, woff2, is_sfnt) = {
+        let fd = ReadScope::new(&bytes).read::<FontData<'_>>().ok()?;
+        let p = fd.table_provider(0).ok()?;
+        (provider_tables(&p)?, matches!(fd, FontData::Woff2(_)), matches!(fd, FontData::OpenType(_)))
+    };
+    let maxp = tables.get(b"maxp")?;
+    let num_glyphs = be16(maxp, 4)?;
+    let outline = if tables.contains_key(b"glyf") && tables.contains_key(b"loca") {
+        Outline::Glyf
+    } else if tables.contains_key(b"CFF ") {
+        Outline::Cff
+    } else if tables.contains_key(b"CFF2") {
+        Outline::Cff2
+    } else {
+        Outline::None
+    };
+    let mut axes = Vec::new();
+    if let Some(fvar) = tables.get(b"fvar") {
+        // fvar header: version(4) axesArrayOffset(2) reserved(2) axisCount(2) axisSize(2) ...
+        let off = be16(fvar, 4)? as usize;
+        let n = be16(fvar, 8)? as usize;
+        let sz = be16(fvar, 10)? as usize;
+        for i in 0..n {
+            let at = off + i * sz;
+            axes.push((be32(fvar, at + 4)? as i32, be32(fvar, at + 8)? as i32, be32(fvar, at + 12)? as i32));
+        }
+    }
+    let rep = validate_tables(&as_refs(&tables), Opts { exact_sizes: false, charstrings: tables.get(b"CFF ").map(|c| c.len() < 400_000).unwrap_or(true) });
+    let codes = rep.issues.iter().map(|i| i.code).collect();
+    let container_codes = if is_sfnt && be32(&bytes, 0) != Some(0x7474_6366) {
+        validate_container(&bytes).issues.iter().map(|i| i.code).collect()
+    } else {
+        BTreeSet::new()
+    };
+    let tags = tables.keys().map(|t| u32::from_be_bytes(*t)).collect();
+    Some(Source { rel: rel.to_string(), bytes, num_glyphs, tags, outline, axes, codes, container_codes, woff2 })
+}
+
+pub fn sources() -> &'static Vec<Source> {
+    static S: OnceLock<Vec<Source>> = OnceLock::new();
+    S.get_or_init(|| {
+        let mut rels = fixtures::list("fonts", &["ttf", "otf", "woff", "woff2"], 470_000);
+        rels.retain(|r| !r.contains("woff1/") || r.contains("valid-"));
+        let mut v: Vec<Source> = rels.iter().filter_map(|r| load_source(r)).collect();
+        v.retain(|s| s.num_glyphs > 0);
+        v
+    })
+}
+
+/// the one large CID-keyed fixture, loaded only by the sections that use it
+fn cid_source() -> Option<&'static Source> {
+    static S: OnceLock<Option<Source>> = OnceLock::new();
+    S.get_or_init(|| load_source("fonts/noto/NotoSansJP-Regular.otf")).as_ref()
+}
+
+fn variable_sources() -> Vec<&'static Source> {
+    sources().iter().filter(|s| !s.axes.is_empty()).collect()
+}
+
+// ------------------------------------------------------------------------------ self-load
+
+struct CountSink(u64);
+impl OutlineSink for CountSink {
+    fn move_to(&mut self, _to: Vector2F) {
+        self.0 += 1;
+    }
+    fn line_to(&mut self, _to: Vector2F) {
+        self.0 += 1;
+    }
+    fn quadratic_curve_to(&mut self, _c: Vector2F, _to: Vector2F) {
+        self.0 += 1;
+    }
+    fn cubic_curve_to(&mut self, _c: LineSegment2F, _to: Vector2F) {
+        self.0 += 1;
+    }
+    fn close(&mut self) {
+        self.0 += 1;
+    }
+}
+
+const MAX_GLYPH_QUERIES: u16 = 3000;
+
+/// advance + outline of every glyph through allsorts' own readers
+fn load_glyphs<P: FontTableProvider>(p: &P, what: &str, expect_glyphs: Option<u16>, want_font: bool) -> CaseResult {
+    let rd = |t: u32, name: &str| p.read_table_data(t).map_err(|e| fail("self-load", format!("{}: cannot read {}: {:?}", what, name, e)));
+    let maxp_d = rd(tag::MAXP, "maxp")?;
+    let maxp = ReadScope::new(&maxp_d).read::<MaxpTable>().map_err(|e| fail("self-load", format!("{}: maxp: {:?}", what, e)))?;
+    let n = maxp.num_glyphs;
+    if let Some(e) = expect_glyphs {
+        if e != n {
+            return Err(fail("num-glyphs", format!("{}: output has {} glyphs, expected {}", what, n, e)));
+        }
+    }
+    let hhea_d = rd(tag::HHEA, "hhea")?;
+    let hhea = ReadScope::new(&hhea_d).read::<HheaTable>().map_err(|e| fail("self-load", format!("{}: hhea: {:?}", what, e)))?;
+    let hmtx_d = rd(tag::HMTX, "hmtx")?;
+    let hmtx = ReadScope::new(&hmtx_d)
+        .read_dep::<HmtxTable<'_>>((usize::from(n), usize::from(hhea.num_h_metrics)))
+        .map_err(|e| fail("self-load", format!("{}: hmtx: {:?}", what, e)))?;
+    let limit = n.min(MAX_GLYPH_QUERIES);
+    for g in 0..limit {
+        hmtx.horizontal_advance(g).map_err(|e| fail("self-load", format!("{}: horizontal_advance({}) of {}: {:?}", what, g, n, e)))?;
+    }
+    let mut sink = CountSink(0);
+    if p.has_table(tag::GLYF) {
+        let head_d = rd(tag::HEAD, "head")?;
+        let head = ReadScope::new(&head_d).read::<HeadTable>().map_err(|e| fail("self-load", format!("{}: head: {:?}", what, e)))?;
+        let loca_d = rd(tag::LOCA, "loca")?;
+        let loca = ReadScope::new(&loca_d)
+            .read_dep::<LocaTable<'_>>((usize::from(n), head.index_to_loc_format))
+            .map_err(|e| fail("self-load", format!("{}: loca: {:?}", what, e)))?;
+        let glyf_d = rd(tag::GLYF, "glyf")?;
+        let mut glyf = ReadScope::new(&glyf_d).read_dep::<GlyfTable<'_>>(&loca).map_err(|e| fail("self-load", format!("{}: glyf: {:?}", what, e)))?;
+        for g in 0..limit {
+            glyf.visit(g, &mut sink).map_err(|e| fail("self-load", format!("{}: outline of glyph {} of {}: {:?}", what, g, n, e)))?;
+        }
+    } else if p.has_table(tag::CFF) {
+        let d = rd(tag::CFF, "CFF")?;
+        let mut cff = ReadScope::new(&d).read::<CFF<'_>>().map_err(|e| fail("self-load", format!("{}: CFF: {:?}", what, e)))?;
+        for g in 0..limit {
+            cff.visit(g, &mut sink).map_err(|e| fail("self-load", format!("{}: CFF outline of glyph {} of {}: {:?}", what, g, n, e)))?;
+        }
+    } else if p.has_table(tag::CFF2) && !p.has_table(tag::FVAR) {
+        let d = rd(tag::CFF2, "CFF2")?;
+        let cff2 = ReadScope::new(&d).read::<CFF2<'_>>().map_err(|e| fail("self-load", format!("{}: CFF2: {:?}", what, e)))?;
+        let mut o = CFF2Outlines { table: &cff2, tuple: None };
+        for g in 0..limit {
+            o.visit(g, &mut sink).map_err(|e| fail("self-load", format!("{}: CFF2 outline of glyph {} of {}: {:?}", what, g, n, e)))?;
+        }
+    }
+    let _ = want_font;
+    Ok(())
+}
+
+fn self_load_file(out: &[u8], what: &str, expect_glyphs: Option<u16>, has_cmap: bool, must_be_static: bool) -> CaseResult {
+    let fd = ReadScope::new(out).read::<FontData<'_>>().map_err(|e| fail("self-load", format!("{}: FontData::read: {:?}", what, e)))?;
+    let p = fd.table_provider(0).map_err(|e| fail("self-load", format!("{}: table_provider: {:?}", what, e)))?;
+    load_glyphs(&p, what, expect_glyphs, has_cmap)?;
+    if has_cmap {
+        let mut font = Font::new(p).map_err(|e| fail("self-load", format!("{}: Font::new: {:?}", what, e)))?;
+        let n = font.num_glyphs();
+        for g in 0..n.min(MAX_GLYPH_QUERIES) {
+            if font.horizontal_advance(g).is_none() {
+                return Err(fail("self-load", format!("{}: Font::horizontal_advance({}) of {} is None", what, g, n)));
+            }
+        }
+        if must_be_static && font.is_variable() {
+            return Err(fail("instance-still-variable", format!("{}: is_variable() is true for an instance", what)));
+        }
+    }
+    Ok(())
+}
+
+// ------------------------------------------------------------------------------ output check
+
+#[derive(Clone, Copy, PartialEq, Debug)]
+enum Origin {
+    Subset,
+    WholeFont,
+    Instance,
+}
+
+/// Validate one written font. `mask`: validator codes the source raises itself (tables copied
+/// verbatim can only be as good as the source).
+fn check_output(out: &[u8], what: &str, origin: Origin, expect_glyphs: Option<u16>, mask: &BTreeSet<&'static str>, load: bool, rec: &mut Rec) -> CaseResult {
+    rec.artefact("output", out);
+    let crep = validate_container(out);
+    if let Some(i) = crep.issues.first() {
+        return Err(fail(&format!("container:{}", i.code), format!("{}: {}", what, i.msg)));
+    }
+    let odd = crep.records.iter().filter(|r| r.length % 4 != 0).count();
+    rec.set_nontrivial(crep.records.len() >= 5 && odd >= 1);
+    rec.class(match crep.records.len() {
+        0..=4 => "out-tables:<5",
+        5..=9 => "out-tables:5-9",
+        10..=14 => "out-tables:10-14",
+        _ => "out-tables:15+",
+    });
+    rec.class(match odd {
+        0 => "odd-length-tables:0",
+        1 => "odd-length-tables:1",
+        2..=3 => "odd-length-tables:2-3",
+        _ => "odd-length-tables:4+",
+    });
+    // flavour against outlines (recommendation in the spec, recorded only)
+    let has = |t: &[u8; 4]| crep.tables.contains_key(t);
+    if (has(b"CFF ") || has(b"CFF2")) && crep.flavour != 0x4F54_544F {
+        rec.class("note:cff-outlines-without-OTTO-flavour");
+    }
+    let charstrings = crep.tables.get(b"CFF ").map(|c| c.len() < 300_000).unwrap_or(true);
+    let trep = validate_tables(&crep.tables, Opts { exact_sizes: origin != Origin::WholeFont, charstrings });
+    for i in &trep.issues {
+        if mask.contains(i.code) {
+            rec.class("inherited-from-source");
+            continue;
+        }
+        if origin == Origin::WholeFont && i.code.ends_with(":missing") {
+            continue;
+        }
+        return Err(fail(&format!("tables:{}", i.code), format!("{}: {}", what, i.msg)));
+    }
+    for f in &trep.cmap_formats {
+        rec.class(&format!("out-cmap-format:{}", f));
+    }
+    if let Some(s) = trep.short_loca {
+        rec.class(if s { "out-loca:short" } else { "out-loca:long" });
+    }
+    rec.class_if(trep.composite_glyphs > 0, "out-has-composite-glyphs");
+    if let Some(c) = trep.cff_cid {
+        rec.class(if c { "out-cff:cid-keyed" } else { "out-cff:name-keyed" });
+    }
+    if origin == Origin::Instance {
+        for t in [b"fvar", b"avar", b"gvar", b"cvar", b"HVAR", b"VVAR", b"MVAR"] {
+            if has(t) {
+                return Err(fail("instance-variation-table", format!("{}: instance still carries '{}'", what, String::from_utf8_lossy(t))));
+            }
+        }
+    }
+    if load {
+        self_load_file(out, what, expect_glyphs, has(b"cmap"), origin == Origin::Instance)?;
+    }
+    rec.hash_bytes(out);
+    Ok(())
+}
+
+// ------------------------------------------------------------------------------ subset
+
+#[derive(Clone, Debug)]
+pub struct SubsetCase {
+    pub src: u32,
+    pub picks: Vec<u32>,
+    /// contiguous run: (start pick, length)
+    pub run: Option<(u32, u16)>,
+    pub order: u8,
+    /// 0 subset, 1 prince Unrestricted, 2 prince MacRoman, 3 prince Omit, 4 prince MacRomanCmap
+    pub api: u8,
+    pub convert: bool,
+    pub seed: u64,
+}
+
+fn subset_strategy() -> impl Strategy<Value = SubsetCase> {
+    (
+        any::<u32>(),
+        proptest::collection::vec(any::<u32>(), 0..24),
+        proptest::option::weighted(0.3, (any::<u32>(), prop_oneof![4 => 1u16..40, 2 => 40u16..300, 1 => 250u16..420])),
+        prop_oneof![6 => Just(0u8), 4 => Just(1u8), 8 => Just(2u8), 1 => Just(3u8), 1 => Just(4u8), 1 => Just(5u8)],
+        prop_oneof![4 => Just(0u8), 2 => Just(1u8), 2 => Just(2u8), 1 => Just(3u8), 2 => Just(4u8)],
+        any::<bool>(),
+        any::<u64>(),
+    )
+        .prop_map(|(src, picks, run, order, api, convert, seed)| SubsetCase { src, picks, run, order, api, convert, seed })
+}
+
+fn glyph_list(n: u16, picks: &[u32], run: Option<(u32, u16)>, order: u8, seed: u64) -> Vec<u16> {
+    let mut set: BTreeSet<u16> = BTreeSet::new();
+    if n > 1 {
+        for p in picks {
+            set.insert(1 + pick((n - 1) as usize, *p) as u16);
+        }
+        if let Some((s, l)) = run {
+            let start = 1 + pick((n - 1) as usize, s) as u16;
+            for g in start..start.saturating_add(l).min(n) {
+                set.insert(g);
+            }
+        }
+    }
+    let mut rest: Vec<u16> = set.into_iter().collect();
+    match order {
+        1 => rest.reverse(),
+        2 => {
+            // deterministic shuffle
+            let mut keyed: Vec<(u64, u16)> = rest.iter().map(|g| (mix64(seed ^ *g as u64), *g)).collect();
+            keyed.sort();
+            rest = keyed.into_iter().map(|k| k.1).collect();
+        }
+        _ => {}
+    }
+    let mut v = vec![0u16];
+    v.extend(rest);
+    // lists that break the documented preconditions (the call may fail; if it succeeds the
+    // output must still be a valid font)
+    match order {
+        3 => v.push(n.saturating_add((seed % 5) as u16)),
+        4 => {
+            let d = v[(seed as usize) % v.len()];
+            v.push(d);
+        }
+        5 if v.len() > 1 => v.swap(0, 1),
+        _ => {}
+    }
+    v
+}
+
+fn run_subset<P: FontTableProvider>(p: &P, ids: &[u16], c: &SubsetCase) -> (Result<Vec<u8>, String>, &'static str) {
+    match c.api {
+        0 => (allsorts::subset::subset(p, ids).map_err(|e| format!("{:?}", e)), "subset"),
+        k => {
+            let (target, name) = match k {
+                1 => (PrinceCmapTarget::Unrestricted, "prince:unrestricted"),
+                2 => (PrinceCmapTarget::MacRoman, "prince:macroman"),
+                3 => (PrinceCmapTarget::Omit, "prince:omit"),
+                _ => {
+                    let mut a = Box::new([0u8; 256]);
+                    let n = ids.len().clamp(1, 256) as u64;
+                    for (i, e) in a.iter_mut().enumerate() {
+                        let r = mix64(c.seed ^ (i as u64) << 20);
+                        if r % 3 != 0 {
+                            *e = ((r >> 8) % n) as u8;
+                        }
+                    }
+                    (PrinceCmapTarget::MacRomanCmap(a), "prince:macroman-cmap")
+                }
+            };
+            (allsorts::subset::prince::subset(p, ids, target, c.convert).map_err(|e| format!("{:?}", e)), name)
+        }
+    }
+}
+
+fn check_subset_on(src_name: &str, bytes: &[u8], n: u16, outline: Outline, c: &SubsetCase, rec: &mut Rec) -> CaseResult {
+    match check_subset_inner(src_name, bytes, n, outline, c, rec) {
+        // a glyph list that breaks the documented preconditions (glyph 0 first, no duplicates, ids in
+        // range) was accepted and the output is not a valid font: one signature for the whole class
+        Err(f) if c.order >= 3 && !f.sig.starts_with("C09:harness") && !f.sig.starts_with("panic:") => Err(Fail::new(
+            "C09:irregular-glyph-list-accepted",
+            format!("glyph list breaking the documented preconditions was accepted and produced an invalid font [{}]: {}", f.sig, f.msg),
+        )),
+        r => r,
+    }
+}
+
+fn check_subset_inner(src_name: &str, bytes: &[u8], n: u16, outline: Outline, c: &SubsetCase, rec: &mut Rec) -> CaseResult {
+    let fd = ReadScope::new(bytes).read::<FontData<'_>>().map_err(|e| fail("harness:source", format!("{}: {:?}", src_name, e)))?;
+    let p = fd.table_provider(0).map_err(|e| fail("harness:source", format!("{}: {:?}", src_name, e)))?;
+    let ids = glyph_list(n, &c.picks, c.run, c.order, c.seed);
+    let (res, api) = run_subset(&p, &ids, c);
+    rec.class(&format!("api:{}", api));
+    rec.class(match outline {
+        Outline::Glyf => "source:glyf",
+        Outline::Cff => "source:CFF",
+        Outline::Cff2 => "source:CFF2",
+        Outline::None => "source:no-outlines",
+    });
+    let what = format!("{}({}, {} glyphs {:?}…)", api, src_name, ids.len(), &ids[..ids.len().min(12)]);
+    let out = match res {
+        Ok(o) => o,
+        Err(e) => {
+            rec.class("result:Err");
+            rec.sample(|| format!("{} -> Err {}", what, e));
+            return Ok(());
+        }
+    };
+    rec.class("result:Ok");
+    rec.class(match ids.len() {
+        1 => "glyphs:1",
+        2..=9 => "glyphs:2-9",
+        10..=99 => "glyphs:10-99",
+        100..=255 => "glyphs:100-255",
+        _ => "glyphs:256+",
+    });
+    rec.sample(|| format!("{} -> {} bytes", what, out.len()));
+    let empty = BTreeSet::new();
+    if c.api != 0 && outline != Outline::Glyf {
+        // prince::subset returns a bare CFF table for CFF / CFF2 sources
+        rec.artefact("output", &out);
+        rec.class("output:bare-CFF");
+        let (issues, cid) = validate_cff(&out, if c.order >= 3 { None } else { Some(ids.len()) }, true);
+        if let Some(i) = issues.first() {
+            return Err(fail(&format!("tables:{}", i.code), format!("{}: bare CFF: {}", what, i.msg)));
+        }
+        if let Some(cid) = cid {
+            rec.class(if cid { "out-cff:cid-keyed" } else { "out-cff:name-keyed" });
+        }
+        let mut cff = ReadScope::new(&out).read::<CFF<'_>>().map_err(|e| fail("self-load", format!("{}: bare CFF does not load: {:?}", what, e)))?;
+        let mut sink = CountSink(0);
+        let ncs = cff.fonts.first().map(|f| f.char_strings_index.len()).unwrap_or(0).min(ids.len());
+        for g in 0..ncs as u16 {
+            cff.visit(g, &mut sink).map_err(|e| fail("self-load", format!("{}: bare CFF outline of glyph {}: {:?}", what, g, e)))?;
+        }
+        rec.hash_bytes(&out);
+        rec.set_nontrivial(out.len() % 4 != 0);
+        return Ok(());
+    }
+    let irregular = c.order >= 3;
+    rec.class_if(irregular, "glyph-list:breaks-precondition-but-Ok");
+    // a glyf subset also pulls in the components of retained composite glyphs
+    let expect = if outline == Outline::Glyf || irregular { None } else { Some(ids.len() as u16) };
+    check_output(&out, &what, Origin::Subset, expect, &empty, true, rec)?;
+    let got = validate_container(&out).tables.get(b"maxp").and_then(|m| be16(m, 4)).unwrap_or(0);
+    if (got as usize) < ids.len() && !irregular {
+        return Err(fail("num-glyphs", format!("{}: output has {} glyphs for {} requested", what, got, ids.len())));
+    }
+    rec.class_if(got as usize > ids.len(), "subset:components-added");
+    Ok(())
+}
+
+fn check_subset_fixture(c: &SubsetCase, rec: &mut Rec) -> CaseResult {
+    let srcs = sources();
+    // 1 in 24 cases uses the large CID-keyed fixture
+    let s: &Source = if c.src % 24 == 0 {
+        match cid_source() {
+            Some(s) => s,
+            None => &srcs[pick(srcs.len(), c.src)],
+        }
+    } else {
+        &srcs[pick(srcs.len(), c.src)]
+    };
+    rec.class_if(s.woff2, "source:woff2-provider");
+    rec.class_if(!s.axes.is_empty(), "source:variable");
+    check_subset_on(&s.rel, &s.bytes, s.num_glyphs, s.outline, c, rec)
+}
+
+// ---- generated TrueType sources
+
+#[derive(Clone, Debug)]
+pub struct GenFont {
+    pub glyphs: Vec<(u8, u8, u16)>,
+    pub num_h_metrics_pick: u32,
+    pub long_loca: bool,
+    pub chars: Vec<(u32, u32)>,
+    pub extra_lens: Vec<u16>,
+    pub seed: u64,
+}
+
+fn gen_font_strategy() -> impl Strategy<Value = GenFont> {
+    (
+        proptest::collection::vec((0u8..6, 0u8..8, any::<u16>()), 1..48),
+        any::<u32>(),
+        any::<bool>(),
+        proptest::collection::vec((prop_oneof![6 => 0x20u32..0x250, 2 => 0x250u32..0xFFFE, 1 => 0x10000u32..0x10400], any::<u32>()), 0..24),
+        proptest::collection::vec(prop_oneof![1 => Just(0u16), 4 => 1u16..40], 0..4),
+        any::<u64>(),
+    )
+        .prop_map(|(glyphs, num_h_metrics_pick, long_loca, chars, extra_lens, seed)| GenFont { glyphs, num_h_metrics_pick, long_loca, chars, extra_lens, seed })
+}
+
+fn composite_glyph(components: &[(u16, i16, i16)]) -> Vec<u8> {
+    let mut b = Buf::new();
+    b.i16(-1).i16(0).i16(0).i16(500).i16(700);
+    for (k, (g, dx, dy)) in components.iter().enumerate() {
+        let more = if k + 1 < components.len() { 0x0020 } else { 0 };
+        let words = *dx < -128 || *dx > 127 || *dy < -128 || *dy > 127 || k % 2 == 0;
+        b.u16(0x0002 | more | if words { 1 } else { 0 }).u16(*g);
+        if words {
+            b.i16(*dx).i16(*dy);
+        } else {
+            b.i8(*dx as i8).i8(*dy as i8);
+        }
+    }
+    b.into_vec()
+}
+
+fn build_gen_font(g: &GenFont) -> BasicFont {
+    let n = g.glyphs.len() as u16;
+    let mut f = BasicFont::with_glyphs(n);
+    let mut depth = vec![0u8; n as usize];
+    for (i, (kind, ilen, r)) in g.glyphs.iter().enumerate() {
+        let rec = match kind {
+            0 if i > 0 => Vec::new(),
+            1 | 2 if i > 1 => {
+                // composite of one or two earlier glyphs
+                // allsorts (like HarfBuzz) limits composite nesting to 6 levels: stay below
+                let shallow = |g: u16, depth: &[u8]| if depth[g as usize] >= 4 { 0 } else { g };
+                let a = 1 + (*r as usize % (i - 1).max(1)) as u16;
+                let mut comps = vec![(shallow(a.min(i as u16 - 1), &depth), (*r % 300) as i16 - 150, *ilen as i16 * 10)];
+                if *kind == 2 {
+                    comps.push((shallow((*r as usize / 7 % i) as u16, &depth), 5, -5));
+                }
+                depth[i] = 1 + comps.iter().map(|c| depth[c.0 as usize]).max().unwrap_or(0);
+                composite_glyph(&comps)
+            }
+            _ => {
+                let mut sg = SimpleGlyph::rect(10, 0, 100 + (*r % 400) as i16, 100 + (*r / 400) as i16);
+                if *kind == 5 {
+                    sg.contours.push(vec![(20, 20, true), (40, 60, false), (60, 20, true)]);
+                }
+                sg.instructions = (0..*ilen).map(|k| k.wrapping_mul(37)).collect();
+                glyf_simple(&sg)
+            }
+        };
+        f.glyph_records[i] = rec;
+        f.metrics[i] = (300 + (*r % 700), (*r % 90) as i16 - 20);
+    }
+    f.num_h_metrics = 1 + pick(n as usize, g.num_h_metrics_pick) as u16;
+    f.long_loca = g.long_loca;
+    for (c, r) in &g.chars {
+        if char::from_u32(*c).is_some() {
+            f.cmap.insert(*c, pick(n as usize, *r) as u16);
+        }
+    }
+    for (k, l) in g.extra_lens.iter().enumerate() {
+        let t: Tag = *[b"cvt ", b"fpgm", b"prep", b"gasp"][k % 4];
+        let mut d: Vec<u8> = (0..*l).map(|i| mix64(g.seed ^ i as u64) as u8).collect();
+        if &t == b"cvt " && d.len() % 2 == 1 {
+            d.push(0);
+        }
+        f.extra.push((t, d));
+    }
+    f
+}
+
+fn check_subset_generated(c: &(GenFont, SubsetCase), rec: &mut Rec) -> CaseResult {
+    let (g, sc) = c;
+    let f = build_gen_font(g);
+    let bytes = f.build();
+    rec.artefact("source", &bytes);
+    rec.class("source:generated");
+    rec.class_if(f.num_h_metrics < f.num_glyphs(), "source:numberOfHMetrics<numGlyphs");
+    check_subset_on("generated", &bytes, f.num_glyphs(), Outline::Glyf, sc, rec)
+}
+
+// ------------------------------------------------------------------------------ whole_font
+
+#[derive(Clone, Debug)]
+pub struct WholeCase {
+    pub src: u32,
+    pub keep: Vec<u8>,
+    pub keys: Vec<u32>,
+    pub dups: Vec<u32>,
+    pub keep_all_required: bool,
+}
+
+fn whole_strategy() -> impl Strategy<Value = WholeCase> {
+    (
+        any::<u32>(),
+        proptest::collection::vec(any::<u8>(), 1..32),
+        proptest::collection::vec(any::<u32>(), 1..32),
+        proptest::collection::vec(any::<u32>(), 0..4),
+        proptest::bool::weighted(0.6),
+    )
+        .prop_map(|(src, keep, keys, dups, keep_all_required)| WholeCase { src, keep, keys, dups, keep_all_required })
+}
+
+fn check_whole(c: &WholeCase, rec: &mut Rec) -> CaseResult {
+    let srcs: Vec<&Source> = sources().iter().filter(|s| !s.woff2).collect();
+    let s = srcs[pick(srcs.len(), c.src)];
+    let fd = ReadScope::new(&s.bytes).read::<FontData<'_>>().map_err(|e| fail("harness:source", format!("{}: {:?}", s.rel, e)))?;
+    let p = fd.table_provider(0).map_err(|e| fail("harness:source", format!("{}: {:?}", s.rel, e)))?;
+    let required = [tag::CMAP, tag::HEAD, tag::MAXP, tag::HHEA, tag::HMTX, tag::GLYF, tag::LOCA, tag::CFF, tag::CFF2, tag::POST, tag::NAME, tag::OS_2];
+    let mut tags: Vec<u32> = Vec::new();
+    for (i, t) in s.tags.iter().enumerate() {
+        let keep = c.keep[i % c.keep.len()] < 200 || (c.keep_all_required && required.contains(t));
+        if keep {
+            tags.push(*t);
+        }
+    }
+    // permute
+    let mut keyed: Vec<(u32, usize, u32)> = tags.iter().enumerate().map(|(i, t)| (c.keys[i % c.keys.len()], i, *t)).collect();
+    keyed.sort();
+    tags = keyed.into_iter().map(|k| k.2).collect();
+    // duplicates
+    for d in &c.dups {
+        if !tags.is_empty() {
+            let t = tags[pick(tags.len(), *d)];
+            let at = pick(tags.len() + 1, d.rotate_left(13));
+            tags.insert(at, t);
+        }
+    }
+    let what = format!("whole_font({}, {} tags)", s.rel, tags.len());
+    let out = match allsorts::subset::whole_font(&p, &tags) {
+        Ok(o) => o,
+        Err(e) => {
+            rec.class("result:Err");
+            rec.sample(|| format!("{} -> Err {:?}", what, e));
+            return Ok(());
+        }
+    };
+    rec.class("result:Ok");
+    let has = |t: u32| tags.contains(&t);
+    let outline_ok = match s.outline {
+        Outline::Glyf => has(tag::GLYF),
+        Outline::Cff => has(tag::CFF),
+        Outline::Cff2 => has(tag::CFF2),
+        Outline::None => true,
+    };
+    let loadable = has(tag::CMAP) && has(tag::HHEA) && has(tag::HMTX) && outline_ok && s.codes.is_empty() && (s.axes.is_empty() || has(tag::FVAR));
+    rec.class(if loadable { "whole:complete-font" } else { "whole:partial-font" });
+    rec.class_if(!c.dups.is_empty(), "whole:duplicate-tags");
+    rec.sample(|| format!("{} -> {} bytes", what, out.len()));
+    check_output(&out, &what, Origin::WholeFont, Some(s.num_glyphs), &s.codes, loadable, rec)
+}
+
+// ------------------------------------------------------------------------------ instance
+
+#[derive(Clone, Debug)]
+pub struct InstanceCase {
+    pub src: u32,
+    pub coords: Vec<(u8, u32)>,
+}
+
+fn instance_strategy() -> impl Strategy<Value = InstanceCase> {
+    (any::<u32>(), proptest::collection::vec((0u8..8, any::<u32>()), 6)).prop_map(|(src, coords)| InstanceCase { src, coords })
+}
+
+fn check_instance(c: &InstanceCase, rec: &mut Rec) -> CaseResult {
+    let srcs = variable_sources();
+    if srcs.is_empty() {
+        return Err(fail("harness:no-variable-fixtures", "no variable fixture fonts found".into()));
+    }
+    let s = srcs[pick(srcs.len(), c.src)];
+    let fd = ReadScope::new(&s.bytes).read::<FontData<'_>>().map_err(|e| fail("harness:source", format!("{}: {:?}", s.rel, e)))?;
+    let p = fd.table_provider(0).map_err(|e| fail("harness:source", format!("{}: {:?}", s.rel, e)))?;
+    let mut user: Vec<Fixed> = Vec::new();
+    let mut kinds = Vec::new();
+    for (i, (min, def, max)) in s.axes.iter().enumerate() {
+        let (k, r) = c.coords[i % c.coords.len()];
+        let span = (*max as i64 - *min as i64).max(0) as u64;
+        let inside = (*min as i64 + ((r as u64 * (span + 1)) >> 32) as i64) as i32;
+        let v = match k {
+            0 => *min,
+            1 => *def,
+            2 => *max,
+            3 => min.saturating_sub((r >> 8) as i32),
+            4 => max.saturating_add((r >> 8) as i32),
+            5 => (inside >> 16) << 16,
+            _ => inside,
+        };
+        kinds.push(k);
+        user.push(Fixed::from_raw(v));
+    }
+    let what = format!("instance({}, {:?})", s.rel, user.iter().map(|f| f.raw_value() as f64 / 65536.0).collect::<Vec<_>>());
+    let (out, _tuple) = match allsorts::variations::instance(&p, &user) {
+        Ok(o) => o,
+        Err(e) => {
+            rec.class("result:Err");
+            rec.sample(|| format!("{} -> Err {:?}", what, e));
+            return Ok(());
+        }
+    };
+    rec.class("result:Ok");
+    rec.class(match s.outline {
+        Outline::Cff2 => "instance:CFF2",
+        _ => "instance:glyf",
+    });
+    rec.class_if(kinds.iter().all(|k| *k == 1), "instance:all-default");
+    rec.class_if(kinds.iter().any(|k| *k == 3 || *k == 4), "instance:outside-axis-range");
+    rec.sample(|| format!("{} -> {} bytes", what, out.len()));
+    check_output(&out, &what, Origin::Instance, Some(s.num_glyphs), &s.codes, true, rec)
+}
+
+// ------------------------------------------------------------------------------ WOFF2 tables
+
+fn check_woff2_tables(i: u64, rec: &mut Rec) -> CaseResult {
+    let files = fixtures::list("fonts/woff2", &["woff2"], 1 << 21);
+    let Some(rel) = files.get(i as usize) else { return Ok(()) };
+    let Some(bytes) = fixtures::read(rel) else { return Ok(()) };
+    let fd = ReadScope::new(&bytes).read::<FontData<'_>>().map_err(|e| fail("harness:source", format!("{}: {:?}", rel, e)))?;
+    let members = match &fd {
+        FontData::Woff2(w) => w.collection_directory.as_ref().map(|d| d.fonts().count()).unwrap_or(1),
+        _ => 1,
+    };
+    for m in 0..members {
+        let what = format!("woff2 tables of {} member {}", rel, m);
+        let p = fd.table_provider(m).map_err(|e| fail("woff2-provider", format!("{}: {:?}", what, e)))?;
+        let tables = provider_tables(&p).ok_or_else(|| fail("woff2-provider", format!("{}: no tag list", what)))?;
+        let trep = validate_tables(&as_refs(&tables), Opts { exact_sizes: false, charstrings: true });
+        if let Some(i) = trep.issues.first() {
+            return Err(fail(&format!("tables:{}", i.code), format!("{}: {}", what, i.msg)));
+        }
+        // the reconstructed tables assembled into a file by my own encoder must load
+        let list: Vec<(Tag, Vec<u8>)> = tables.iter().map(|(k, v)| (*k, v.clone())).collect();
+        let flavour = if tables.contains_key(b"CFF ") || tables.contains_key(b"CFF2") { 0x4F54_544F } else { 0x0001_0000 };
+        let file = crate::fontgen::sfnt::build_sfnt(flavour, &list);
+        self_load_file(&file, &what, trep.num_glyphs, tables.contains_key(b"cmap"), false)?;
+        load_glyphs(&p, &what, trep.num_glyphs, false)?;
+        rec.class_if(tables.contains_key(b"glyf"), "woff2:glyf");
+        rec.class_if(tables.contains_key(b"CFF "), "woff2:CFF");
+    }
+    rec.set_nontrivial(true);
+    rec.hash_bytes(&bytes);
+    rec.evaluations(members as u64);
+    Ok(())
+}
+
+/// sanity of the reference: what the validators say about the fixtures themselves (never a failure)
+fn check_fixture_sanity(i: u64, rec: &mut Rec) -> CaseResult {
+    let srcs = sources();
+    let Some(s) = srcs.get(i as usize) else { return Ok(()) };
+    rec.class(if s.codes.is_empty() { "fixture:tables-valid" } else { "fixture:tables-have-issues" });
+    for c in &s.codes {
+        rec.class(&format!("fixture-issue:{}", c));
+    }
+    for c in &s.container_codes {
+        rec.class(&format!("fixture-container-issue:{}", c));
+    }
+    rec.sample(|| format!("{}: {} glyphs, {:?}, axes {}, issues {:?} / {:?}", s.rel, s.num_glyphs, s.outline, s.axes.len(), s.codes, s.container_codes));
+    rec.set_nontrivial(true);
+    rec.hash_bytes(s.rel.as_bytes());
+    Ok(())
+}
+
+
+// ------------------------------------------------------------------------------ validator self-test
+
+/// The validator must accept a canonical font built by my encoders and must raise the expected
+/// code for each deliberate corruption (guards the oracle itself).
+fn check_validator_selftest(i: u64, rec: &mut Rec) -> CaseResult {
+    use crate::fontgen::container::{encode_sfnt, Blob, Member, Model, SfntLayout};
+    let mut f = BasicFont::with_glyphs(7);
+    f.glyph_records[5] = composite_glyph(&[(1, 10, 10), (2, -200, 300)]);
+    f.glyph_records[6] = Vec::new();
+    f.glyph_records[3] = {
+        let mut g = SimpleGlyph::rect(0, 0, 300, 300);
+        g.instructions = vec![1, 2, 3];
+        glyf_simple(&g)
+    };
+    f.num_h_metrics = 4;
+    f.cmap.insert(0x41, 1);
+    f.cmap.insert(0x42, 2);
+    f.cmap.insert(0x10000, 3);
+    f.extra.push((*b"cvt ", vec![0, 1, 0, 2, 0, 3]));
+    f.extra.push((*b"prep", vec![7; 5]));
+    let base = f.build();
+    let tables: BTreeMap<Tag, Vec<u8>> = f.tables().into_iter().collect();
+    let sf = |m: String| fail("validator-selftest", m);
+    let container_codes = |b: &[u8]| -> Vec<&'static str> { validate_container(b).issues.iter().map(|i| i.code).collect() };
+    let table_codes = |t: &BTreeMap<Tag, Vec<u8>>| -> Vec<&'static str> { validate_tables(&as_refs(t), Opts::default()).issues.iter().map(|i| i.code).collect() };
+    let dir = crate::fontgen::sfnt::parse_directory(&base).ok_or_else(|| sf("base font has no directory".into()))?.1;
+    let entry = |t: &[u8; 4]| dir.iter().find(|e| &e.tag == t).cloned().unwrap();
+    let expect = |codes: Vec<&'static str>, want: &str, what: &str| -> CaseResult {
+        if codes.iter().any(|c| *c == want) {
+            Ok(())
+        } else {
+            Err(sf(format!("corruption '{}' should raise {}, validator raised {:?}", what, want, codes)))
+        }
+    };
+    // cmap subtable offsets
+    let cmap = &tables[b"cmap"];
+    let sub = |k: usize| be32(cmap, 4 + 8 * k + 4).unwrap() as usize;
+    rec.set_nontrivial(true);
+    rec.hash_u64(i);
+    match i {
+        0 => {
+            let c = container_codes(&base);
+            let t = table_codes(&tables);
+            if !c.is_empty() || !t.is_empty() {
+                return Err(sf(format!("canonical generated font is not accepted: container {:?}, tables {:?}", c, t)));
+            }
+            Ok(())
+        }
+        1 => {
+            let mut b = base.clone();
+            let e = entry(b"hmtx");
+            b[e.offset as usize + 1] ^= 0x40;
+            let c = container_codes(&b);
+            expect(c.clone(), "table:checksum", "byte flipped in hmtx")?;
+            expect(c, "head:checksum-adjustment", "byte flipped in hmtx")
+        }
+        2 => {
+            let mut b = base.clone();
+            b[7] = b[7].wrapping_add(16);
+            expect(container_codes(&b), "dir:search-range", "searchRange + 16")
+        }
+        3 => {
+            let mut b = base.clone();
+            let (a0, a1) = (12usize, 28usize);
+            for k in 0..16 {
+                b.swap(a0 + k, a1 + k);
+            }
+            expect(container_codes(&b), "dir:not-sorted", "first two records swapped")
+        }
+        4 => {
+            let mut b = base.clone();
+            let e = dir.iter().find(|e| e.length % 4 != 0).cloned().ok_or_else(|| sf("no odd-length table".into()))?;
+            b[(e.offset + e.length) as usize] = 1;
+            expect(container_codes(&b), "table:padding-nonzero", "padding byte set to 1")
+        }
+        5 => {
+            let last = dir.iter().max_by_key(|e| e.offset).cloned().unwrap();
+            if last.length % 4 == 0 {
+                return Err(sf("last table of the base font needs no padding; adjust the self-test font".into()));
+            }
+            let b = &base[..base.len() - 1];
+            expect(container_codes(b), "table:padding-missing", "last padding byte removed")
+        }
+        6 | 7 | 8 => {
+            let pool: Vec<Blob> = tables.iter().map(|(t, d)| Blob { tag: *t, data: d.clone(), within: None }).collect();
+            let model = Model { members: vec![Member { flavour: 0x0001_0000, tables: (0..pool.len()).collect() }], pool };
+            let mut lay = SfntLayout::canonical();
+            let want = match i {
+                6 => {
+                    lay.aligned = false;
+                    "table:unaligned"
+                }
+                7 => {
+                    lay.gaps = vec![4];
+                    lay.gap_fill = 0xAA;
+                    "gap:nonzero"
+                }
+                _ => {
+                    lay.sorted_dir = false;
+                    lay.dir_keys = vec![5, 1, 4, 2, 3];
+                    "dir:not-sorted"
+                }
+            };
+            let enc = encode_sfnt(&model, &lay, false);
+            expect(container_codes(&enc.bytes), want, "free-layout encoder")
+        }
+        9 => {
+            // two records pointing at one byte range
+            let mut b = base.clone();
+            let (a, c) = (entry(b"cvt "), entry(b"prep"));
+            let at = c.record_at;
+            b[at + 8..at + 12].copy_from_slice(&a.offset.to_be_bytes());
+            expect(container_codes(&b), "table:overlap", "prep record points at the cvt data")
+        }
+        10 => {
+            let mut t = tables.clone();
+            t.get_mut(b"maxp").unwrap()[5] += 1;
+            let c = table_codes(&t);
+            expect(c.clone(), "loca:too-short", "maxp.numGlyphs + 1")?;
+            expect(c, "hmtx:too-short", "maxp.numGlyphs + 1")
+        }
+        11 => {
+            let mut t = tables.clone();
+            let l = t.get_mut(b"loca").unwrap();
+            let (a, b) = (be16(l, 2).unwrap(), be16(l, 4).unwrap());
+            l[2..4].copy_from_slice(&b.to_be_bytes());
+            l[4..6].copy_from_slice(&a.to_be_bytes());
+            expect(table_codes(&t), "loca:not-monotonic", "loca entries 1 and 2 swapped")
+        }
+        12 | 13 => {
+            let mut f2 = f.clone();
+            f2.glyph_records[5] = composite_glyph(&[(if i == 12 { 999 } else { 5 }, 0, 0)]);
+            let t: BTreeMap<Tag, Vec<u8>> = f2.tables().into_iter().collect();
+            expect(table_codes(&t), if i == 12 { "glyf:component-out-of-range" } else { "glyf:component-cycle" }, "component id 999 / self reference")
+        }
+        14 => {
+            let mut f2 = f.clone();
+            let l = f2.glyph_records[2].len();
+            f2.glyph_records[2].truncate(l - 4);
+            let t: BTreeMap<Tag, Vec<u8>> = f2.tables().into_iter().collect();
+            expect(table_codes(&t), "glyf:glyph-malformed", "simple glyph truncated by 4 bytes")
+        }
+        15 => {
+            let mut t = tables.clone();
+            let c = t.get_mut(b"cmap").unwrap();
+            // format 4 subtable: endCode array starts at +14; make the last endCode 0xFFFE
+            let s4 = sub(0);
+            let sc = be16(c, s4 + 6).unwrap() as usize / 2;
+            c[s4 + 14 + 2 * (sc - 1) + 1] = 0xFE;
+            expect(table_codes(&t), "cmap4:last-end-code", "last endCode 0xFFFE")
+        }
+        16 => {
+            let mut t = tables.clone();
+            let c = t.get_mut(b"cmap").unwrap();
+            let s4 = sub(0);
+            c[s4 + 9] ^= 0x02; // searchRange
+            expect(table_codes(&t), "cmap4:search-fields", "format 4 searchRange changed")
+        }
+        17 => {
+            let mut t = tables.clone();
+            let c = t.get_mut(b"cmap").unwrap();
+            let s12 = sub(1);
+            if be16(c, s12) != Some(12) {
+                return Err(sf("second cmap subtable of the base font is not format 12".into()));
+            }
+            // first group: start glyph id := 200
+            c[s12 + 16 + 8 + 3] = 200;
+            expect(table_codes(&t), "cmap:gid-out-of-range", "format 12 start glyph 200 of 7")
+        }
+        18 => {
+            let mut t = tables.clone();
+            let c = t.get_mut(b"cmap").unwrap();
+            let s12 = sub(1);
+            let n = be32(c, s12 + 12).unwrap() as usize;
+            if n < 2 {
+                return Err(sf("format 12 subtable of the base font has fewer than 2 groups".into()));
+            }
+            for k in 0..12 {
+                c.swap(s12 + 16 + k, s12 + 28 + k);
+            }
+            expect(table_codes(&t), "cmap12:groups-unordered", "first two groups swapped")
+        }
+        19 => {
+            let mut t = tables.clone();
+            t.get_mut(b"post").unwrap().push(0);
+            expect(table_codes(&t), "post:length", "post 3.0 of 33 bytes")
+        }
+        20 => {
+            let mut t = tables.clone();
+            t.get_mut(b"hhea").unwrap()[35] = 8;
+            expect(table_codes(&t), "hhea:num-h-metrics>num-glyphs", "numberOfHMetrics 8 of 7")
+        }
+        21 => {
+            let mut t = tables.clone();
+            t.get_mut(b"head").unwrap()[51] = 2;
+            expect(table_codes(&t), "head:index-to-loc-format", "indexToLocFormat 2")
+        }
+        22 => {
+            let mut t = tables.clone();
+            t.get_mut(b"hmtx").unwrap().push(0);
+            t.get_mut(b"hmtx").unwrap().push(0);
+            expect(table_codes(&t), "hmtx:too-long", "hmtx with one extra bearing")
+        }
+        _ => Ok(()),
+    }
+}
+const SELFTEST_ITEMS: u64 = 23;
 
 impl Property for C09 {
     fn id(&self) -> &'static str {
         "C09"
     }
     fn rule(&self) -> String {
-        "not implemented".to_string()
+        "Writers exercised: subset::subset and subset::prince::subset (Unrestricted / MacRoman / Omit / supplied MacRoman array, with and without CID conversion) with generated glyph lists \
+         (glyph 0 first, distinct ids, individual picks plus contiguous runs of up to 420 glyphs, sorted / reversed / shuffled) on every fixture font <= 470 kB (TrueType, CFF, CFF2, variable, WOFF and WOFF2 providers; the 2 MB CID-keyed fixture in 1 of 24 cases) \
+         and on generated BasicFonts (empty, simple, composite glyphs, odd instruction and table lengths, numberOfHMetrics < numGlyphs, short/long loca, BMP and astral cmaps); subset::whole_font with generated tag lists (subsets, permutations, duplicates, with and without the required tables); \
+         variations::instance on the variable fixtures at generated user coordinates (min / default / max / inside / outside); the tables delivered by the WOFF2 provider for every WOFF2 fixture. \
+         Every Ok output is checked by the independent validator refmodel::sfnt_validate: header, search fields, sorted directory, 4-byte alignment, bounds, overlap, zero padding (including the last table), per-table checksums, whole-file sum / head.checkSumAdjustment; \
+         and for subsets, instances and WOFF2 tables: maxp/hhea/hmtx sizes, head.indexToLocFormat/loca width and monotonicity, every glyph parses inside its loca slice, component ids < numGlyphs and acyclic, cmap structure (formats 0/4/6/12: lengths, search fields, segment order, last segment 0xFFFF, all glyph ids < numGlyphs), post 2.0/3.0 sizes, \
+         CFF/CFF2 (INDEX and DICT syntax, CharStrings count = numGlyphs, charset/Encoding/FDSelect/FDArray/Private/Subrs resolve, every charstring walks to endchar with all subroutine references in range); instances carry no variation tables. \
+         Self-load: FontData::read, Font::new, advance and outline visit of every retained glyph. whole_font outputs: file-level rules always; table relations only where the source font satisfies them (codes raised by the source are masked). \
+         A few glyph lists deliberately break the documented preconditions (duplicate, glyph 0 not first, id out of range): the call may fail, but if it returns Ok the output must still be valid. A validator self-test section feeds the validator a canonical generated font (must be accepted) and 22 targeted corruptions (each must raise its code). Non-trivial = output with >= 5 tables of which >= 1 has a length that is not a multiple of 4 (padding exercised); distinct by hash of the output bytes."
+            .to_string()
     }
-    fn run(&self, _ctx: &mut Ctx) {}
+    fn assumptions(&self) -> Vec<String> {
+        vec![
+            "fixture fonts are read through allsorts' container readers (checked by C10); table contents are examined only by the independent validator".into(),
+            "head bbox ⊇ glyph bboxes and contiguous table layout are recommendations, not asserted".into(),
+            "the Type 2 charstring walk checks syntax, hint-mask lengths, subroutine references and termination, not path semantics (C18)".into(),
+            "glyph queries are capped at 3000 glyphs per output".into(),
+        ]
+    }
+    fn run(&self, ctx: &mut Ctx) {
+        let n = ctx.cases(48_000, 600_000);
+        ctx.section("subset-fixtures", n, subset_strategy(), |c, rec| check_subset_fixture(c, rec));
+        let n = ctx.cases(60_000, 800_000);
+        ctx.section("subset-generated", n, (gen_font_strategy(), subset_strategy()), |c, rec| check_subset_generated(c, rec));
+        let n = ctx.cases(24_000, 300_000);
+        ctx.section("whole-font", n, whole_strategy(), |c, rec| check_whole(c, rec));
+        let n = ctx.cases(24_000, 300_000);
+        ctx.section("instance", n, instance_strategy(), |c, rec| check_instance(c, rec));
+        let files = fixtures::list("fonts/woff2", &["woff2"], 1 << 21).len() as u64;
+        ctx.enumerate("woff2-tables", files, true, |i, rec| check_woff2_tables(i, rec));
+        ctx.enumerate("validator-selftest", SELFTEST_ITEMS, true, |i, rec| check_validator_selftest(i, rec));
+        let nsrc = sources().len() as u64;
+        ctx.enumerate("fixture-sanity", nsrc, true, |i, rec| check_fixture_sanity(i, rec));
+    }
 }
